@@ -113,7 +113,14 @@ pub enum Op {
     /// it are still open; their handles stay alive and are dropped later (they are dead by then)
     Collect { into: Option<Slot> },
     /// a panic unwinding through a local-parent scope with an open local span (caught by the host)
-    UnwindScope { slot: Slot },
+    /// a caught panic unwinds through scopes. shape 0: set_local_parent(slot) + a local span;
+    /// 1: set_local_parent(slot) + a LocalCollector (never collected) + a local span;
+    /// 2: only local spans, inside whatever scope the thread is in, which carries on afterwards
+    UnwindScope {
+        slot: Slot,
+        #[serde(default)]
+        shape: u8,
+    },
     /// enters and exits n local spans one after another (scope span limit)
     LocalBurst { n: u32 },
     /// opens n nested local-parent scopes of the span and closes them again (scope stack limit)
